@@ -43,9 +43,9 @@ let vstate_of = function
 let str_vstate = function Secure -> "Secure" | Insecure -> "Insecure" | Bogus -> "Bogus" | Indeterminate -> "Indeterminate"
 let rec agroups = function
   | [] -> []
-  | cls :: rt :: nrr :: owner :: cname :: st :: wild :: rest ->
+  | cls :: rt :: nrr :: owner :: cname :: st :: wild :: dname :: signed :: rest ->
       { a_class_ok = b_of cls; a_rtype = n_of_s rt; a_nrr = n_of_s nrr; a_owner = name_of_hex owner;
-        a_cname = oname_of_hex cname; a_state = vstate_of st; a_wild = b_of wild } :: agroups rest
+        a_cname = oname_of_hex cname; a_state = vstate_of st; a_wild = b_of wild; a_dname = oname_of_hex dname; a_signed = b_of signed } :: agroups rest
   | _ -> failwith "bad answer group words"
 
 let show_o f o = match o with
